@@ -514,8 +514,9 @@ class Context(object):
         current_frame = self._stack[0]
         if layer_name:
             current_frame = self._select_stack_frame_by_layer(layer_name)
-        if cleanup_func not in current_frame["@cleanups"]:
-            # -- AVOID DUPLICATES:
+        if internal_cleanup_func not in current_frame["@cleanups"]:
+            # -- AVOID DUPLICATES: Same cleanup function (without args).
+            # NOTE: A cleanup function with args is a cleanup of its own.
             current_frame["@cleanups"].append(internal_cleanup_func)
 
     @property
